@@ -96,13 +96,15 @@ def run_property(prop: str, tier: str, repo: str, overlay=None, *, write_evidenc
         if only_rule and rid != only_rule:
             continue
         ctx.rules_run.append(rid)
-        merged, base, errs = _run_rule_on_views(prop, tier, views, rid, fn, known)
-        ctx.obligations += merged
-        ctx.inspected += base.inspected
-        ctx.floors += base.floors
-        ctx.notes += base.notes
-        for e in errs:
-            ctx.notes.append(f"{rid}: view not usable — {e}")
+        parts = getattr(fn, "parts", None)
+        for part in (parts() if parts else [fn]):
+            merged, base, errs = _run_rule_on_views(prop, tier, views, rid, part, known)
+            ctx.obligations += merged
+            ctx.inspected += base.inspected
+            ctx.floors += base.floors
+            ctx.notes += base.notes
+            for e in errs:
+                ctx.notes.append(f"{rid}: view not usable — {e}")
     extra = {"views": [v for v, _ in views]}
     if tier == "thorough" and overlay is None and not only_rule:
         from . import selftest
